@@ -104,7 +104,8 @@ Record tconn := {
   t_health : Z;         (* health goroutine: 0 health checks disabled, 1 running, 2 exited *)
   t_hquit : bool;       (* healthCheckQuit called *)
   t_rd : Z;             (* readFrames: 0 running, 1 exited *)
-  t_wr : Z              (* writeFrames: 0 in its loop, 1 left the loop on a write error (deferred <-stopCh), 2 exited *)
+  t_wr : Z              (* writeFrames: 0 in its loop, 1 left the loop on a write error (deferred <-stopCh), 2 exited,
+                           3 inside a Write that does not return (the peer does not read; no write deadline is set) *)
 }.
 
 Definition tconn_init (health : bool) : tconn :=
@@ -189,7 +190,9 @@ Inductive tlabel :=
 | TRelayAdd         (* canHandleNewCall on an Active connection: pending.Inc *)
 | TRelayDone        (* decrementPending: pending.Dec; checkExchanges *)
 | TProtocolError    (* protocolError(...) from the reader *)
-| TConnError.       (* connectionError(...) from another site (handleError, ping/cancel send failure) *)
+| TConnError        (* connectionError(...) from another site (handleError, ping/cancel send failure) *)
+| TWriteBlock       (* writeFrames: WriteOut blocks (send buffer full, the peer does not read) *)
+| TWriteReturn.     (* the blocked WriteOut returns (the peer reads again); an error is a later TWriteErr *)
 
 Definition tenabled (c : tconn) (l : tlabel) : bool :=
   match l with
@@ -205,6 +208,8 @@ Definition tenabled (c : tconn) (l : tlabel) : bool :=
   | TRelayDone => 0 <? t_relay c
   | TProtocolError => t_rd c =? 0
   | TConnError => true
+  | TWriteBlock => t_wr c =? 0
+  | TWriteReturn => t_wr c =? 3
   | _ => true
   end.
 
@@ -232,6 +237,8 @@ Definition tstep (fixw : bool) (c : tconn) (l : tlabel) : option tconn :=
   | TRelayDone => check_exchanges (with_counts c (t_inb c) (t_outb c) (t_relay c - 1))
   | TProtocolError => protocol_error c
   | TConnError => connection_error c
+  | TWriteBlock => with_pcs c (t_rd c) 3 (t_health c)
+  | TWriteReturn => with_pcs c (t_rd c) 0 (t_health c)
   end.
 
 Fixpoint trun (fixw : bool) (c : tconn) (ls : list tlabel) : option tconn :=
@@ -387,12 +394,13 @@ Fixpoint wrun (fixw : bool) (w : world) (ls : list wlabel) : option world :=
   | l :: r => match wstep fixw w l with Some w' => wrun fixw w' r | None => None end
   end.
 
-(* The quiescent situation of the property: every channel closed, every connection closed,
-   every call context done and every handler returned, every init deadline passed; and no
-   goroutine exit step is enabled any more. *)
+(* The quiescent situation of the property: every channel closed, every connection closed and
+   no frame writer held inside a Write by a peer that does not read, every call context done and
+   every handler returned, every init deadline passed; and no goroutine exit step is enabled
+   any more. *)
 Definition world_quiescent (w : world) : bool :=
   (w_state w =? c_ChannelClosed)
-  && forallb (fun c => t_state c =? c_connectionClosed) (w_conns w)
+  && forallb (fun c => (t_state c =? c_connectionClosed) && negb (t_wr c =? 3)) (w_conns w)
   && forallb (fun k => k_ctxdone k && (k_handler k =? 1)) (w_calls w)
   && forallb h_deadline (w_hands w).
 
@@ -418,15 +426,28 @@ Definition kind_exited (k : gkind) (w : world) : bool :=
   end.
 
 (* ---- harness entry points ----------------------------------------------------------
-   ledger: case = fn bytes, text bytes (count-prefixed) -> [kind code] or [-1] when the creating
-           site is not in the ledger
-   teardown: case = fixw health n (label)* ; labels 0..15 in the order of [tlabel], TExAdd/TExDone carry
+   ledger: case = creating function, started function key (count-prefixed byte strings, as read
+           from a goroutine dump) -> [kind code] or [-1] when the site is not in the ledger
+   teardown: case = fixw health n (label)* ; labels 0..17 in the order of [tlabel], TExAdd/TExDone carry
            the direction as 100+label (inbound) ; after every label the model takes all enabled
            goroutine exit steps (settling); observable per label: state sock rd wr health          *)
+(* the name by which a started function shows up in a goroutine dump: the part of the go
+   expression after its last '.', or "func" for a function literal *)
+Fixpoint after_last_dot (acc l : list Z) : list Z :=
+  match l with
+  | [] => acc
+  | x :: r => if x =? 46 then after_last_dot r r else after_last_dot acc r
+  end.
+Definition text_key (t : list Z) : list Z :=
+  match t with
+  | 102 :: 117 :: 110 :: 99 :: 40 :: _ => [102; 117; 110; 99]      (* "func(" -> "func" *)
+  | _ => after_last_dot t t
+  end.
+
 Definition run_ledger (c : list Z) : list Z :=
   let '(fn, r) := take_bytes c in
-  let '(tx, _) := take_bytes r in
-  match find (fun e => zlist_eqb fn (g_fn e) && zlist_eqb tx (g_text e)) ledger with
+  let '(key, _) := take_bytes r in
+  match find (fun e => g_is_go e && zlist_eqb fn (g_fn e) && zlist_eqb key (text_key (g_text e))) ledger with
   | Some e => [gkind_code (g_kind e)]
   | None => [-1]
   end.
@@ -436,16 +457,26 @@ Definition tlabel_of (z : Z) : tlabel :=
   else if z =? 4 then TReadErr else if z =? 5 then TWriteErr else if z =? 6 then TWriterStop else if z =? 7 then TWriterDeferred
   else if z =? 8 then THealthExit else if z =? 9 then THealthFail else if z =? 10 then TExAdd false else if z =? 110 then TExAdd true
   else if z =? 11 then TExDone false else if z =? 111 then TExDone true else if z =? 12 then TRelayAdd else if z =? 13 then TRelayDone
-  else if z =? 14 then TProtocolError else TConnError.
+  else if z =? 14 then TProtocolError else if z =? 16 then TWriteBlock else if z =? 17 then TWriteReturn else TConnError.
 
+(* Settling, for the correspondence run only: the goroutine exit steps, and -- because the
+   harness keeps every caller and handler blocked inside a library call -- the removal of every
+   exchange once the exchanges were stopped (a notified exchange makes its blocked reader fail
+   and shut down; an inbound one is expired by its watcher). *)
 Definition settle_labels : list tlabel := [TReadErr; TWriterStop; TWriterDeferred; THealthExit].
+
+Definition drain_stopped (fixw : bool) (c : tconn) : tconn :=
+  if t_stopped_ex c then
+    let c1 := if 0 <? t_inb c then check_exchanges (with_counts c 0 (t_outb c) (t_relay c)) else c in
+    if 0 <? t_outb c1 then check_exchanges (with_counts c1 (t_inb c1) 0 (t_relay c1)) else c1
+  else c.
 
 Fixpoint settle (fuel : nat) (fixw : bool) (c : tconn) : tconn :=
   match fuel with
   | O => c
   | S f =>
       let c' := fold_left (fun acc l => match tstep fixw acc l with Some a => a | None => acc end) settle_labels c in
-      settle f fixw c'
+      settle f fixw (drain_stopped fixw c')
   end.
 
 Fixpoint teardown_obs (fixw : bool) (c : tconn) (ls : list Z) : list Z :=
